@@ -110,9 +110,12 @@ def rep_count(rep):
     return int(rep[1]) if isinstance(rep, (tuple, list)) else int(rep)
 
 
-def build(prog, rep=1, acq_from=None):
-    """Builds a DeclarativeCircuit from a program through DeclarativeCircuit.add only."""
+def build(prog, rep=1, acq_from=None, root=None):
+    """Builds a DeclarativeCircuit from a program through DeclarativeCircuit.add only.
+    A block entry may carry a fourth element 'top': its measurements are then created against the registry
+    of the outermost circuit instead of the block's own registry."""
     circ = DeclarativeCircuit() if rep == 1 else DeclarativeCircuit(repetition_strategy=rep_strategy(rep))
+    root = root or circ
     ent, subs = [], []
     for e in prog:
         if e[0] == 'op':
@@ -122,7 +125,8 @@ def build(prog, rep=1, acq_from=None):
             ent.append(circ.add(make_op(kind, q, link, acq_from or circ, tag)))
             subs.append(None)
         elif e[0] == 'sub':
-            sb = build(e[2], rep=e[1], acq_from=acq_from)
+            mode = e[3] if len(e) > 3 else None
+            sb = build(e[2], rep=e[1], acq_from=(root if mode == 'top' else acq_from), root=root)
             ent.append(circ.add(sb.circ))
             subs.append(sb)
         else:
